@@ -13,6 +13,8 @@ pub enum Val {
     XElem,
     XText(u8),
     Doc,
+    /// (map insert only) the plain value the key currently shows on the writing replica, written again
+    Same,
 }
 
 #[derive(Serialize, Deserialize, Clone, Debug, PartialEq)]
@@ -137,6 +139,8 @@ pub struct Profile {
     pub ascii_pct: u32,
     /// percent of histories generated in lock-step shape (edit, sync everybody, edit, ...): sequential, no concurrency
     pub lockstep_pct: u32,
+    /// percent of map inserts that write the key's current plain value again (C05)
+    pub same_pct: u32,
 }
 
 pub const C_TINS: usize = 0;
@@ -190,6 +194,7 @@ impl Profile {
             big_ids: true,
             cleanup_pct: 100,
             lockstep_pct: 0,
+            same_pct: 0,
             ascii_pct: 0,
         }
     }
@@ -276,7 +281,11 @@ pub fn gen_call(rng: &mut Rng, p: &Profile) -> Call {
                 Call::ARemoveRange { ty, pos, len: rng.u8(1..4) }
             }
         }
-        C_MINS => Call::MInsert { ty, key: rng.u8(0..p.keys), val: gen_val(rng, p, false) },
+        C_MINS => {
+            let key = rng.u8(0..p.keys);
+            let val = if p.same_pct > 0 && rng.u32(0..100) < p.same_pct { Val::Same } else { gen_val(rng, p, false) };
+            Call::MInsert { ty, key, val }
+        }
         C_MTRY => Call::MTryUpdate { ty, key: rng.u8(0..p.keys), same: rng.bool() },
         C_MREM => Call::MRemove { ty, key: rng.u8(0..p.keys) },
         C_MCLEAR => Call::MClear { ty },
